@@ -24,6 +24,7 @@ PRELUDE = r'''
 #include "nmtools/array/view/matmul.hpp"
 #include "nmtools/array/view/expand_dims.hpp"
 #include "nmtools/array/view/broadcast_to.hpp"
+#include "nmtools/array/view/broadcast_arrays.hpp"
 #include "nmtools/array/view/where.hpp"
 #include "nmtools/array/view/stack.hpp"
 #include "nmtools/array/index/tile.hpp"
@@ -252,6 +253,26 @@ def _bsclip(id, bounds, swapped):
     return W(id, "C11", "pass", "broadcast_shape(%s clipped shape with bounds %s, run-time shape): the result's extents carry no static bound" % ("run-time shape," if swapped else "", bounds),
         "void f(){ using R = meta::get_maybe_type_t<decltype(nm::index::broadcast_shape(std::declval<%s>(), std::declval<%s>()))>; static_assert(!meta::is_clipped_index_array_v<R> && !meta::is_constant_index_array_v<R>); }" % (a, b))
 WITNESSES += [_bsclip("c11_bshape_clipped_3", (3,), False), _bsclip("c11_bshape_clipped_3_sw", (3,), True), _bsclip("c11_bshape_clipped_34", (3,4), False), _bsclip("c11_bshape_clipped_34_sw", (3,4), True), _bsclip("c11_bshape_clipped_232", (2,3,2), False)]
+
+# ---------------- C06 / C11: three operands - a fixed-size array, a scalar and a run-time-shaped array: the broadcast views have the size of
+#                  the RESULT (run-time here), in every operand order; the fixed size survives only when all other operands are scalars
+def _bcast3_witnesses():
+    out = []
+    pre = "using fx3_a = na::ndarray_t<nmtools_array<float,3>, nmtools_tuple<meta::ct<3>>>; template <size_t I, class R> using view_at = std::remove_cv_t<std::remove_reference_t<decltype(nm::get<I>(std::declval<R&>()))>>;\n"
+    def w(id, prop, why, params, call, asserts):
+        out.append(W(id, prop, "pass", why, pre + "void f(%s){ auto r = %s; using R = std::remove_cv_t<std::remove_reference_t<decltype(nm::unwrap(r))>>; %s }" % (params, call, asserts)))
+    for prop in ("C06", "C11"):
+        t = prop.lower()
+        w(t + "_bcast3_fixed_scalar_dynamic", prop, "broadcast_arrays(fixed (3), scalar, dynamic): no view claims a compile-time size (the dynamic operand decides it)",
+          "fx3_a& a, float s, dyn_a& c", "view::broadcast_arrays(a, s, c)", "static_assert(!meta::is_fixed_size_v<view_at<0,R>>); static_assert(!meta::is_fixed_size_v<view_at<2,R>>);")
+        w(t + "_bcast3_fixed_dynamic_scalar", prop, "broadcast_arrays(fixed (3), dynamic, scalar): no view claims a compile-time size",
+          "fx3_a& a, float s, dyn_a& c", "view::broadcast_arrays(a, c, s)", "static_assert(!meta::is_fixed_size_v<view_at<0,R>>); static_assert(!meta::is_fixed_size_v<view_at<1,R>>);")
+        w(t + "_bcast3_scalar_fixed_dynamic", prop, "broadcast_arrays(scalar, fixed (3), dynamic): no view claims a compile-time size",
+          "fx3_a& a, float s, dyn_a& c", "view::broadcast_arrays(s, a, c)", "static_assert(!meta::is_fixed_size_v<view_at<1,R>>);")
+    w("c06_bcast3_fixed_scalar_scalar", "C06", "broadcast_arrays(fixed (3), scalar, scalar): the fixed size 3 is kept",
+      "fx3_a& a, float s", "view::broadcast_arrays(a, s, s)", "static_assert(meta::is_fixed_size_v<view_at<0,R>> && meta::fixed_size_v<view_at<0,R>> == 3);")
+    return out
+WITNESSES += _bcast3_witnesses()
 
 # ---------------- C10: the array type the default evaluator allocates can represent every shape the view can take
 def _result_witnesses():
